@@ -75,7 +75,7 @@ def decompose_qpd_instructions(
         for i, decomp_gate_ids in enumerate(instruction_ids):
             for gate_id in decomp_gate_ids:
                 num_maps = len(circuit.data[gate_id].operation.basis.maps)
-                if map_ids[i] is not None and map_ids[i] not in range(num_maps):
+                if map_ids[i] is None or map_ids[i] not in range(num_maps):
                     raise ValueError(
                         f"Map ID ({map_ids[i]}) is out of range for the basis of the "
                         f"gate at index {gate_id}, which has {num_maps} maps."
